@@ -16,6 +16,18 @@
      c04_udp_identical_when_fits_partial   clause (iii) for answers that end Ok: if the finished TCP message
                                  fits the UDP space, the UDP response is octet-identical (through
                                  c04_writer_limit_monotone and a relational lifting over the query model)
+     c04_tc_on_the_octets        (third wave, composition with C12's round trip) clause (ii) on the FINISHED OCTETS,
+                                 for every zone built by adds: the RFC 1035 decoder finds TC set only over UDP, and
+                                 then no answer / authority record and nothing but the OPT in the additional section
+     c04_glue_complete_partial   (third wave) the glue half of clause (iv), unary: a direct referral whose answering
+                                 logic succeeded (so: neither TC nor an error SERVFAIL) carries, on the finished octets,
+                                 the NS RRset and — first in the additional section — EVERY address record the zone
+                                 holds for the name servers at/below the delegated zone
+     c04_only_optional_omitted_partial   (third wave) clause (iv) for EVERY question (CNAME chains, ANY, negative answers
+                                 included), per response against the idealised answer: whenever the answering logic
+                                 succeeds on the octet-level Writer, the decoded answer and authority sections are those of
+                                 the idealised (never-truncating) run of the same logic — which is C05's resolve — and the
+                                 decoded additional section is the idealised one minus some records of its optional tail
    What is NOT proved and is decided per case by the extracted oracle [pair_check] (Spec/RespS.v) on
    the real server's two responses to every generated request: clause (iii) for answers that end in
    SERVFAIL (false there: finding C04-1), clause (iv) "otherwise a TC-clear UDP response differs only
@@ -24,6 +36,8 @@
 From QV Require Import Base.Res Base.Octets Model.MsgWriter Model.ZoneTree Model.Query Model.QueryW
   Proofs.MsgWriterInvP Proofs.QueryWP Proofs.ServerLimitP Proofs.WriterMonoP Proofs.QueryMonoP Spec.MsgWriterS Spec.RespS.
 From QV Require Model.Server Spec.NameRepr.
+From QV Require Import Spec.ZoneLookupS Spec.MsgWriterAbsS Proofs.MsgWriterDecP Proofs.ComposeTraceP Proofs.ComposeTcP Proofs.ComposeGlueP Proofs.ComposeAbsP Proofs.ComposeEndP.
+From QV Require Spec.ResolveS Spec.ResolveRepr.
 
 Theorem c04_response_within_limit : forall negttl buf tcp id rd qname qtype qclass edns limit z len b,
   respond_w negttl buf tcp id rd qname qtype qclass edns limit z = Some (len, b) ->
@@ -191,6 +205,263 @@ Proof.
   vm_compute. repeat split; repeat constructor.
 Qed.
 
+(* Clause (ii) on the octets.  c04_tc_shape above speaks about the Writer's counters and header octet; this one about
+   what an independent RFC 1035 decoder reads from the finished message: for every zone built by adds (any records with
+   RDATA <= 65535 octets < 256 and 16-bit types), every question at/below the apex, both transports, with or without
+   EDNS, any buffer of at least 512 octets: respond_w returns a message that decodes; over TCP its TC bit is clear; if
+   its TC bit is set, the answer and authority sections are empty and the additional section holds only pseudo-records
+   (the OPT).  From c12_roundtrip + the key lemma of Proofs/ComposeKeyP.v: the only operation of the whole run that
+   touches TC is the set_tc(true) right after clear_rrs in the Truncation arm over UDP. *)
+Theorem c04_tc_on_the_octets : forall reqf apex cls wide recs z negttl buf tcp id rd qname qtype qclass edns limit,
+  (forall c t a b d, reqf c t a b = true -> reqf c t b d = true -> reqf c t a d = true) ->
+  zone_build reqf (zone_new apex cls wide) recs = Some z ->
+  Forall (fun r => good_rd (r_rdata r) /\ (r_type r < 65536)%N) recs -> good_name apex -> (cls < 65536)%N ->
+  512 <= length buf -> good_name qname -> in_zone apex qname = true ->
+  (id < 65536)%N -> (qtype < 65536)%N -> (qclass < 65536)%N -> (forall s, edns = Some s -> (s < 65536)%N) ->
+  exists len b m, respond_w negttl buf tcp id rd qname qtype qclass edns limit z = Some (len, b) /\
+    decode_msg (firstn len b) = Some m /\
+    (tcp = true -> tc_bit m = false) /\
+    (tc_bit m = true -> m_an m = [] /\ m_ns m = [] /\ forallb is_pseudo (m_ar m) = true).
+Proof. exact respond_w_tc_build. Qed.
+
+(* The glue half of clause (iv) ("never by in-bailiwick referral glue"), in unary form.  For every zone built by adds and
+   every question (QTYPE other than ANY) that the zone answers with a referral (the lookup reports LReferral child ns):
+   respond_w returns a message that decodes, and IF the answering logic (do_referral on the prepared writer) succeeded —
+   then the response is TC-clear and not an error SERVFAIL (c04_tc_shape, handle_non_axfr_query) — the decoded authority
+   section is the NS RRset of the delegation and the decoded additional section BEGINS WITH every address record
+   ([glue_rrs]: for each NS target at/below the child, in RDATA order, the A RRset and, in class IN, the AAAA RRset that
+   Zone::lookup_addrs reports with search_below_cuts) — whatever the transport, the limit and the EDNS settings; after
+   them come records related to an order-preserving SUB-SELECTION X ([Sub]) of the candidate list [opt_rrs] (the address
+   records of the other name servers, added under execute_allowing_truncation), then only pseudo-records (the OPT).
+   Since glue_rrs and opt_rrs are functions of the zone and the question alone, any two successful responses to the same
+   referral — over UDP and over TCP, under any limits — have the same authority section, the same glue, and differ only in
+   WHICH of the optional candidates are present: the complete response has them all (X = opt_rrs), a UDP response that
+   lacks room omits some.  This is clause (iv) for direct referrals, stated per response against the canonical lists
+   instead of by comparing two runs.  PARTIAL: direct referrals only (not those reached through a CNAME chain or by QTYPE
+   ANY, nor the additional-section processing of positive answers: same argument, not done). *)
+Theorem c04_glue_complete_partial : forall reqf apex cls wide recs z negttl buf tcp id rd qname qtype qclass edns limit child ns,
+  (forall c t a b d, reqf c t a b = true -> reqf c t b d = true -> reqf c t a d = true) ->
+  zone_build reqf (zone_new apex cls wide) recs = Some z ->
+  Forall (fun r => good_rd (r_rdata r) /\ (r_type r < 65536)%N) recs -> good_name apex -> (cls < 65536)%N ->
+  512 <= length buf -> good_name qname -> in_zone apex qname = true ->
+  (id < 65536)%N -> (qtype < 65536)%N -> (qclass < 65536)%N -> (forall s, edns = Some s -> (s < 65536)%N) ->
+  (qtype =? QTYPE_ANY)%N = false ->
+  zone_lookup z qname qtype true false = Ok (LReferral child ns) ->
+  exists w len b m,
+    prepare_w buf tcp id rd qname qtype qclass edns limit = Some w /\
+    respond_w negttl buf tcp id rd qname qtype qclass edns limit z = Some (len, b) /\
+    decode_msg (firstn len b) = Some m /\
+    match do_referral w_iface z child ns w with
+    | Ok _ =>
+      exists ds_ns ds_glue X ds_opt ds_pseudo,
+        m_ns m = ds_ns /\
+        Forall2 (rr_rel xparts) (map (mkAR child Standard Gen.ZoneConsts.TYPE_NS (z_class z) (ttl_rfc (fst ns))) (snd ns)) ds_ns /\
+        m_ar m = ds_glue ++ ds_opt ++ ds_pseudo /\
+        Forall2 (rr_rel xparts) (glue_rrs z child (snd ns)) ds_glue /\
+        Forall2 (rr_rel xparts) X ds_opt /\ Sub X (opt_rrs z child (snd ns)) /\
+        forallb is_pseudo ds_pseudo = true
+    | _ => True
+    end.
+Proof. exact respond_referral_glue_build. Qed.
+
+(* Clause (iv) for direct positive answers, in the same unary form.  For every zone built by adds and every question
+   (QTYPE other than ANY) answered by an RRset at the query name (the lookup reports LFound rs): respond_w decodes, and if the
+   answering logic (set_aa, the answer RRset, additional-section processing) succeeded, the decoded answer section is that
+   RRset, the authority section is empty, and the additional section is records related to an order-preserving
+   sub-selection X of the candidate list [addl_rrs] (for NS/MD/MF/MB/MX/SRV answers in classes IN/CH: the A / AAAA RRsets
+   of the names in the RDATA, in order) followed only by pseudo-records.  Any two successful responses to the same question
+   — UDP or TCP, any limit — therefore differ only in which of those optional candidates are present. *)
+Theorem c04_optional_only_partial : forall reqf apex cls wide recs z negttl buf tcp id rd qname qtype qclass edns limit rs sos,
+  (forall c t a b d, reqf c t a b = true -> reqf c t b d = true -> reqf c t a d = true) ->
+  zone_build reqf (zone_new apex cls wide) recs = Some z ->
+  Forall (fun r => good_rd (r_rdata r) /\ (r_type r < 65536)%N) recs -> good_name apex -> (cls < 65536)%N ->
+  512 <= length buf -> good_name qname -> in_zone apex qname = true ->
+  (id < 65536)%N -> (qtype < 65536)%N -> (qclass < 65536)%N -> (forall s, edns = Some s -> (s < 65536)%N) ->
+  (qtype =? QTYPE_ANY)%N = false ->
+  zone_lookup z qname qtype true false = Ok (LFound rs sos) ->
+  exists w len b m,
+    prepare_w buf tcp id rd qname qtype qclass edns limit = Some w /\
+    respond_w negttl buf tcp id rd qname qtype qclass edns limit z = Some (len, b) /\
+    decode_msg (firstn len b) = Some m /\
+    match set_aa_then w_iface (add_found w_iface z QhQname qname qtype rs) w with
+    | Ok _ =>
+      exists X ds_opt ds_pseudo,
+        Forall2 (rr_rel xparts) (map (mkAR qname Standard qtype (z_class z) (ttl_rfc (fst rs))) (snd rs)) (m_an m) /\
+        m_ns m = [] /\
+        m_ar m = ds_opt ++ ds_pseudo /\
+        Forall2 (rr_rel xparts) X ds_opt /\ Sub X (addl_rrs z qtype (snd rs)) /\
+        forallb is_pseudo ds_pseudo = true
+    | _ => True
+    end.
+Proof. exact respond_found_optional_build. Qed.
+
+(* CLAUSE (iv) IN GENERAL, per response against the idealised answer — and the bridge from the octets to C05.
+   For every zone built by adds, every question at/below the apex (any QTYPE: direct answers, CNAME chains, referrals,
+   ANY, negative answers), both transports, any limits: respond_w decodes, and if the answering logic (answer / answer_any
+   of query.rs driving the octet-level Writer) succeeded, then with r the response of the SAME logic on the idealised
+   never-truncating Writer (answer_rec, the object of C05; = the RFC resolution algorithm [resolve] by c05_answer_refines):
+     - the decoded answer section is r's answer section and the decoded authority section is r's authority section
+       (record by record: owner and RDATA names modulo ASCII case, type, class, TTL, RDATA — C12's rr_rel);
+     - r's additional section splits as M ++ O and the decoded additional section is M' ++ X' ++ P with M' the records
+       of M, X' the records of an order-preserving sub-selection X of O, and P only pseudo-records (the OPT).
+   Hence any two successful responses to the same question — over UDP and over TCP, under any limits — have the same
+   answer and authority sections and differ only by omitted records of the additional section; a complete response
+   omits nothing.  PARTIAL with respect to the literal clause (iv): (a) the condition is the model-level "answering
+   succeeded" (by c04_tc_shape / c04_tc_on_the_octets the other endings are exactly the TC and SERVFAIL responses);
+   (b) that the mandatory part M contains every in-bailiwick glue record is stated only for direct referrals
+   (c04_glue_complete_partial); here M is whatever was written before the first optional record. *)
+Theorem c04_only_optional_omitted_partial : forall reqf apex cls wide recs z buf tcp id rd qname qtype qclass edns limit,
+  (forall c t a b d, reqf c t a b = true -> reqf c t b d = true -> reqf c t a d = true) ->
+  zone_build reqf (zone_new apex cls wide) recs = Some z ->
+  Forall (fun r => good_rd (r_rdata r) /\ (r_type r < 65536)%N) recs -> good_name apex -> (cls < 65536)%N ->
+  512 <= length buf -> good_name qname -> in_zone apex qname = true ->
+  (id < 65536)%N -> (qtype < 65536)%N -> (qclass < 65536)%N -> (forall s, edns = Some s -> (s < 65536)%N) ->
+  exists w len b m,
+    prepare_w buf tcp id rd qname qtype qclass edns limit = Some w /\
+    respond_w neg_ttl buf tcp id rd qname qtype qclass edns limit z = Some (len, b) /\
+    decode_msg (firstn len b) = Some m /\
+    match answering z neg_ttl w_iface qname qtype w with
+    | Ok _ =>
+      exists r, (forall tcp', answer_rec z qname qtype tcp' = Some r) /\
+        ResolveRepr.norm_rec r = ResolveS.resolve reqf apex cls (accepted apex cls recs) qname qtype /\
+        Forall2 (rr_rel xparts) (map q2a (rc_an r)) (m_an m) /\
+        Forall2 (rr_rel xparts) (map q2a (rc_ns r)) (m_ns m) /\
+        exists M X Oq dsM dsX dsP,
+          map q2a (rc_ar r) = M ++ map q2a Oq /\ Sub X (map q2a Oq) /\
+          Forall (fun q => ~ in_bailiwick (rc_ns r) q) Oq /\
+          m_ar m = dsM ++ dsX ++ dsP /\ Forall2 (rr_rel xparts) M dsM /\ Forall2 (rr_rel xparts) X dsX /\
+          forallb is_pseudo dsP = true
+    | _ => True
+    end.
+Proof. exact respond_w_vs_resolve. Qed.
+
+(* The endings of handle_non_axfr_query read off the octets: the answering logic succeeded exactly when the decoded
+   response has TC clear and an RCODE other than SERVFAIL (the answering logic itself only ever sets NXDOMAIN and never TC;
+   the error arms end with set_rcode(SERVFAIL) or, over UDP after a Truncation, set_tc(true)). *)
+Theorem c04_endings_on_the_octets : forall reqf apex cls R z negttl buf tcp id rd qname qtype qclass edns limit,
+  Proofs.ZoneInvP.Inv reqf apex cls z R -> good_name apex -> (cls < 65536)%N ->
+  Forall (fun r => Proofs.ComposeKeyP.Pz (fun _ _ => True) (r_type r) (r_rdata r)) R ->
+  512 <= length buf -> good_name qname -> in_zone apex qname = true ->
+  (id < 65536)%N -> (qtype < 65536)%N -> (qclass < 65536)%N -> (forall s, edns = Some s -> (s < 65536)%N) ->
+  exists w len b m,
+    prepare_w buf tcp id rd qname qtype qclass edns limit = Some w /\
+    respond_w negttl buf tcp id rd qname qtype qclass edns limit z = Some (len, b) /\
+    decode_msg (firstn len b) = Some m /\
+    match answering z negttl w_iface qname qtype w with
+    | Ok _ => tc_bit m = false /\ rcode_of_msg m <> 2%N
+    | Err _ => tc_bit m = true \/ rcode_of_msg m = 2%N
+    | Panic => False
+    end.
+Proof. intros. eapply respond_w_endings; eauto. Qed.
+
+(* CLAUSE (iv), premise and conclusion both on the octets: for every zone built by adds, every question, transport and
+   limit, the response decodes, and IF ITS TC BIT IS CLEAR AND ITS RCODE IS NOT SERVFAIL then its answer and authority
+   sections are those of the idealised complete answer r (= resolve, C05) and its additional section is r's minus some
+   records of the optional tail (plus the OPT).  A UDP response with TC clear therefore differs from the complete response
+   to the same question only by omitted additional records, none of which is in-bailiwick (owner at/below the owner of
+   an authority record): referral glue is never omitted, however the referral is reached. *)
+Theorem c04_clause_iv : forall reqf apex cls wide recs z buf tcp id rd qname qtype qclass edns limit,
+  (forall c t a b d, reqf c t a b = true -> reqf c t b d = true -> reqf c t a d = true) ->
+  zone_build reqf (zone_new apex cls wide) recs = Some z ->
+  Forall (fun r => good_rd (r_rdata r) /\ (r_type r < 65536)%N) recs -> good_name apex -> (cls < 65536)%N ->
+  512 <= length buf -> good_name qname -> in_zone apex qname = true ->
+  (id < 65536)%N -> (qtype < 65536)%N -> (qclass < 65536)%N -> (forall s, edns = Some s -> (s < 65536)%N) ->
+  exists len b m,
+    respond_w neg_ttl buf tcp id rd qname qtype qclass edns limit z = Some (len, b) /\
+    decode_msg (firstn len b) = Some m /\
+    (tc_bit m = false -> rcode_of_msg m <> 2%N ->
+     exists r, (forall tcp', answer_rec z qname qtype tcp' = Some r) /\
+       ResolveRepr.norm_rec r = ResolveS.resolve reqf apex cls (accepted apex cls recs) qname qtype /\
+       Forall2 (rr_rel xparts) (map q2a (rc_an r)) (m_an m) /\
+       Forall2 (rr_rel xparts) (map q2a (rc_ns r)) (m_ns m) /\
+       exists M X Oq dsM dsX dsP,
+         map q2a (rc_ar r) = M ++ map q2a Oq /\ Sub X (map q2a Oq) /\
+         Forall (fun q => ~ in_bailiwick (rc_ns r) q) Oq /\
+         m_ar m = dsM ++ dsX ++ dsP /\ Forall2 (rr_rel xparts) M dsM /\ Forall2 (rr_rel xparts) X dsX /\
+         forallb is_pseudo dsP = true).
+Proof. exact respond_w_clause_iv. Qed.
+
+(* CLAUSE (iv) AS A COMPARISON OF TWO RUNS.  `differs_only_by_omissions r m`: the decoded message m has the answer and
+   authority sections of the complete answer r, and its additional section is r's without some records of an optional
+   tail none of which is in-bailiwick (so never referral glue), followed only by pseudo-records (the OPT). *)
+Definition differs_only_by_omissions (r : recorder) (m : MsgWriterS.dmsg) : Prop :=
+  Forall2 (rr_rel xparts) (map q2a (rc_an r)) (m_an m) /\
+  Forall2 (rr_rel xparts) (map q2a (rc_ns r)) (m_ns m) /\
+  exists M X Oq dsM dsX dsP,
+    map q2a (rc_ar r) = M ++ map q2a Oq /\ Sub X (map q2a Oq) /\
+    Forall (fun q => ~ in_bailiwick (rc_ns r) q) Oq /\
+    m_ar m = dsM ++ dsX ++ dsP /\ Forall2 (rr_rel xparts) M dsM /\ Forall2 (rr_rel xparts) X dsX /\
+    forallb is_pseudo dsP = true.
+
+(* The same question asked over UDP and over TCP (any buffers >= 512, ids, RD bits, EDNS states and limits on either
+   side): both responses decode; the TCP one never has TC set; and if the UDP response has TC clear and neither is
+   SERVFAIL, there is ONE complete answer r (the RFC resolution algorithm's, C05) from which BOTH differ only by omitted
+   not-in-bailiwick additional records: equal answer sections, equal authority sections, all glue present in both. *)
+Theorem c04_clause_iv_two_runs : forall reqf apex cls wide recs z qname qtype qclass
+    bufU idU rdU ednsU limitU bufT idT rdT ednsT limitT,
+  (forall c t a b d, reqf c t a b = true -> reqf c t b d = true -> reqf c t a d = true) ->
+  zone_build reqf (zone_new apex cls wide) recs = Some z ->
+  Forall (fun r => good_rd (r_rdata r) /\ (r_type r < 65536)%N) recs -> good_name apex -> (cls < 65536)%N ->
+  good_name qname -> in_zone apex qname = true -> (qtype < 65536)%N -> (qclass < 65536)%N ->
+  512 <= length bufU -> (idU < 65536)%N -> (forall s, ednsU = Some s -> (s < 65536)%N) ->
+  512 <= length bufT -> (idT < 65536)%N -> (forall s, ednsT = Some s -> (s < 65536)%N) ->
+  exists lenU bU mU lenT bT mT,
+    respond_w neg_ttl bufU false idU rdU qname qtype qclass ednsU limitU z = Some (lenU, bU) /\
+    decode_msg (firstn lenU bU) = Some mU /\
+    respond_w neg_ttl bufT true idT rdT qname qtype qclass ednsT limitT z = Some (lenT, bT) /\
+    decode_msg (firstn lenT bT) = Some mT /\
+    tc_bit mT = false /\
+    (tc_bit mU = false -> rcode_of_msg mU <> 2%N -> rcode_of_msg mT <> 2%N ->
+     exists r, (forall tcp, answer_rec z qname qtype tcp = Some r) /\
+       ResolveRepr.norm_rec r = ResolveS.resolve reqf apex cls (accepted apex cls recs) qname qtype /\
+       differs_only_by_omissions r mU /\ differs_only_by_omissions r mT).
+Proof.
+  intros reqf apex cls wide recs z qname qtype qclass bufU idU rdU ednsU limitU bufT idT rdT ednsT limitT
+         Ht Hb Hrecs Ga Hc Gq Hz Hqt Hqc HbU HidU HeU HbT HidT HeT.
+  destruct (c04_clause_iv reqf apex cls wide recs z bufU false idU rdU qname qtype qclass ednsU limitU
+              Ht Hb Hrecs Ga Hc HbU Gq Hz HidU Hqt Hqc HeU) as (lenU & bU & mU & EU & DU & HU).
+  destruct (c04_clause_iv reqf apex cls wide recs z bufT true idT rdT qname qtype qclass ednsT limitT
+              Ht Hb Hrecs Ga Hc HbT Gq Hz HidT Hqt Hqc HeT) as (lenT & bT & mT & ET & DT & HT).
+  destruct (c04_tc_on_the_octets reqf apex cls wide recs z neg_ttl bufT true idT rdT qname qtype qclass ednsT limitT
+              Ht Hb Hrecs Ga Hc HbT Gq Hz HidT Hqt Hqc HeT) as (lenT' & bT' & mT' & ET' & DT' & Htc & _).
+  rewrite ET in ET'. inversion ET'; subst lenT' bT'. rewrite DT in DT'. inversion DT'; subst mT'.
+  exists lenU, bU, mU, lenT, bT, mT. split; [exact EU|]. split; [exact DU|]. split; [exact ET|]. split; [exact DT|].
+  split; [exact (Htc eq_refl)|]. intros TU RU RT.
+  destruct (HU TU RU) as (r & Hr & Hres & HanU & HnsU & HarU).
+  destruct (HT (Htc eq_refl) RT) as (r' & Hr' & _ & HanT & HnsT & HarT).
+  assert (r' = r) by (pose proof (Hr true) as A; rewrite (Hr' true) in A; inversion A; reflexivity). subst r'.
+  exists r. split; [exact Hr|]. split; [exact Hres|]. split; [exact (conj HanU (conj HnsU HarU))|exact (conj HanT (conj HnsT HarT))].
+Qed.
+
+(* Non-vacuity: zone a. with the delegation sub.a. NS ns.sub.a. / NS ns.other. and the glue ns.sub.a. A 5.6.7.8:
+   the lookup of x.sub.a. is a referral, its glue list is that one A record, and do_referral succeeds in 512 octets. *)
+Definition ex_recs4 : list record :=
+  [mk_record [[115;117;98];[97]]%N 2 1 60 [2;110;115;3;115;117;98;1;97;0]%N;
+   mk_record [[115;117;98];[97]]%N 2 1 60 [2;110;115;5;111;116;104;101;114;0]%N;
+   mk_record [[110;115];[115;117;98];[97]]%N 1 1 60 [5;6;7;8]%N].
+Example c04_glue_example :
+  match zone_build req_simple (zone_new [[97]]%N 1 false) ex_recs4 with
+  | Some z =>
+    match zone_lookup z [[120];[115;117;98];[97]]%N 1 true false with
+    | Ok (LReferral child ns) =>
+      glue_rrs z child (snd ns) = [mkAR [[110;115];[115;117;98];[97]]%N Standard 1 1 60 [5;6;7;8]%N] /\
+      match prepare_w (repeat 0%N 512) false 7 false [[120];[115;117;98];[97]]%N 1 1 None 512 with
+      | Some w => match do_referral w_iface z child ns w with Ok _ => True | _ => False end
+      | None => False
+      end
+    | _ => False
+    end
+  | None => False
+  end.
+Proof. vm_compute. split; [reflexivity|exact I]. Qed.
+
+Print Assumptions c04_clause_iv.
+Print Assumptions c04_clause_iv_two_runs.
+Print Assumptions c04_endings_on_the_octets.
+Print Assumptions c04_only_optional_omitted_partial.
+Print Assumptions c04_glue_complete_partial.
+Print Assumptions c04_optional_only_partial.
+Print Assumptions c04_tc_on_the_octets.
 Print Assumptions c04_response_within_limit.
 Print Assumptions c04_tc_shape.
 Print Assumptions c04_limit_value.
